@@ -20,12 +20,12 @@ SIMPLE = {
     'int': ('xs:int', lambda r: str(r.randint(-50, 50)) if r.random() < .8 else r.choice(['007', '+5', ' 12 ']),
             ['x', '1.5', '', '99999999999']),
     'string': ('xs:string', lambda r: r.choice(['', 'a', 'hello world', ' sp ', 'x&amp;y', 'Z9']), []),
-    'boolean': ('xs:boolean', lambda r: r.choice(['true', 'false', '1', '0']), ['TRUE', '2', '']),
-    'decimal': ('xs:decimal', lambda r: r.choice(['1.50', '-0.1', '3', '.5', '10.']), ['1e3', 'abc', '']),
-    'date': ('xs:date', lambda r: r.choice(['2000-02-29', '1999-12-31Z', '2024-01-01+02:00']),
+    'boolean': ('xs:boolean', lambda r: r.choice(['true', 'false', '1', '0', ' true ', '\n0 ']), ['TRUE', '2', '']),
+    'decimal': ('xs:decimal', lambda r: r.choice(['1.50', '-0.1', '3', '.5', '10.', ' 3 ']), ['1e3', 'abc', '']),
+    'date': ('xs:date', lambda r: r.choice(['2000-02-29', '1999-12-31Z', '2024-01-01+02:00', ' 2000-02-29 ']),
              ['2001-02-29', '99-1-1', '']),
-    'NMTOKEN': ('xs:NMTOKEN', lambda r: r.choice(['a', 'a-b', 'x.y']), ['a b', '']),
-    'double': ('xs:double', lambda r: r.choice(['1E5', '-INF', '0.1', '12']), ['1e', 'inf', '']),
+    'NMTOKEN': ('xs:NMTOKEN', lambda r: r.choice(['a', 'a-b', 'x.y', '  a-b ']), ['a b', '']),
+    'double': ('xs:double', lambda r: r.choice(['1E5', '-INF', '0.1', '12', ' 12 ']), ['1e', 'inf', '']),
     'pct': ('t:pct', lambda r: str(r.randint(0, 100)), ['-1', '101', 'x', '']),
     'color': ('t:color', lambda r: r.choice(['red', 'green', 'blue']), ['RED', 'pink', '']),
     'ints': ('t:ints', lambda r: ' '.join(str(r.randint(0, 9)) for _ in range(r.randint(1, 4))), ['1 x', 'a']),
